@@ -15,6 +15,10 @@ vars == <<l, last>>      \* last : replica -> last logged projection (the previo
 On(p) == p \in CHECKS
 E == Rec[l]
 
+Chk(p, name, cond) ==
+  IF ~On(p) \/ cond THEN TRUE
+  ELSE PrintT(<<"CHECKFAIL", p, name, l>>) /\ FALSE
+
 ChkT(p, name, before, patches, after) ==
   IF ~On(p) \/ Transforms(before, patches, after) THEN TRUE
   ELSE /\ PrintT(<<"CHECKFAIL", p, name, l>>)
@@ -30,6 +34,12 @@ Step ==
   /\ IF E.ev = "reset" THEN last' = <<>>
      ELSE IF E.ev = "diff" THEN
           /\ ChkT("C08", "diff-transforms-state-at-H1-into-state-at-H2", E.v1, E.patches, E.v2)
+          /\ UNCHANGED last
+     ELSE IF E.ev = "ptrans" THEN
+          \* a mutating path taken on a private AutoCommit copy (local edits, rollback, receiving sync messages,
+          \* isolate / integrate, load with a patch log): the patches turn the view before into the view after
+          /\ Chk("C09", "patch-path-does-not-panic", E.res = "ok")
+          /\ (E.res = "ok") => ChkT("C09", "incremental-patches-keep-the-view-equal", E.v1, E.patches, E.v2)
           /\ UNCHANGED last
      ELSE IF HasView THEN
           /\ IF E.ev = "commit" /\ Len(E.iso) > 0
